@@ -34,6 +34,10 @@ def gen_cases(ctx, n, maxsize):
             if rng.random() < 0.2: p[105] = 3
             if rng.random() < 0.3: p[1010] = 1
             if rng.random() < 0.3: p[201] = 1
+        if i % 60 == 7 or (not ctx.quick() and i % 20 == 7):
+            # sub-block compression whose last sub-block is raw yet owns a sequence; the next block re-uses that sequence's distance
+            kind, x = "subtail", datagen.subtail(rng, rng.choice([2, 3, 4]))
+            api = "c2"; p = {100: rng.choice([13, 16, 17, 18, 19]), 130: rng.choice([400, 1340, 1340, 2000, 6000])}
         d = b""
         if api in ("udict", "ucdict") or (api in ("c2", "adv") and rng.random() < 0.15):
             d = datagen.gen(rng, 8000)[1] + x[: rng.randint(0, min(len(x), 2000))]
